@@ -429,7 +429,7 @@ def check_report(ctx, c, im, mo, stream, st):
     msteps = [list(x) for x in msteps]
     diff = None
     if mdecomp is not True:
-        diff = "the model's final manager fails decomp_ok (contradicts C07_decomposable)"
+        diff = "the model's final manager fails decomp_ok (contradicts C07_decomposable) or reduced_ok (hypothesis of C07_canonical_history_partial)"
     elif mspec != spec:
         diff = "Coq Spec truth tables differ from the check's bit-mask Spec"
     elif mtabs != spec:
@@ -788,8 +788,9 @@ def run(ctx):
     evaluate_interrupts(ctx, binpath, icases, "interrupt", 40 if ctx.thorough else 12)
     ctx.finish(level="proof", rule=PROP_RULE, trusted_base=TRUSTED, assumptions=ASSUME,
                extra={"partial": ["unbounded canonicity (equal functions get equal handles for every number of variables) is not proved; "
-                                  "C07_canonical_3 is the bounded theorem, C07_unique_nodes / C07_canonical_simple_partial cover equal nodes, "
-                                  "constants and literals for every number of variables; the check tests canonicity on every generated handle"]})
+                                  "C07_canonical_reduced proves it for every manager passing the decidable check reduced_ok, which is evaluated on "
+                                  "every model state; the missing lemma is preservation of reduced_ok by the operations. C07_canonical_3 is the "
+                                  "bounded theorem; the check tests canonicity on every generated handle"]})
 
 
 def replay(ctx):
